@@ -57,19 +57,29 @@ fn run<T: Flt>(src: &mut Src, obs: &mut Obs) -> Result<(), Fail> {
     obs.class(format!("T:{}", T::NAME));
     let n = if src.chance(1, 100) { src.usize_in(65, 10_000) } else { src.usize_in(2, 64) };
     let class = axis_class(src);
-    let x = axis::<T>(src, n, class, None);
+    let x = if n > 64 {
+        let ent = expand(src, 4 * n + 16);
+        axis::<T>(&mut Src::new(&ent), n, class, None)
+    } else {
+        axis::<T>(src, n, class, None)
+    };
     let trailing = if n > 64 {
         trailing_shape(src, 1, &[1, 2])
     } else if src.chance(1, 40) {
         // many lanes (size thresholds in per-lane loops)
-        src.pick(&[vec![40usize], vec![5, 8], vec![17], vec![3, 3, 7]])
+        src.pick(&[vec![40usize], vec![5, 8], vec![17], vec![3, 3, 7], vec![64], vec![96], vec![33, 1], vec![4, 4, 4]])
     } else {
         trailing_shape(src, 3, &[1, 2, 3, 4])
     };
     let lanes = product(&trailing);
     let vclass = val_class(src);
     let sc = scale_exp::<T>(src);
-    let data = values::<T>(src, n * lanes, vclass, sc);
+    let data = if n * lanes > 100 {
+        let ent = expand(src, 3 * n * lanes + 8);
+        values::<T>(&mut Src::new(&ent), n * lanes, vclass, sc)
+    } else {
+        values::<T>(src, n * lanes, vclass, sc)
+    };
     let mut shape = vec![n];
     shape.extend_from_slice(&trailing);
     let dd = if src.chance(1, 4) { DDim::Dyn } else { DDim::of_rank(shape.len()) };
@@ -79,7 +89,15 @@ fn run<T: Flt>(src: &mut Src, obs: &mut Obs) -> Result<(), Fail> {
     obs.class(format!("xlayout:{}", xlay.0.name()));
     obs.class(format!("datalayout:{}", dlay.0.name()));
     let xo = if class == AxisClass::Index { None } else { Some(crate::layout::realise1(arr_1::<T>(&x), xlay, T::of(-9.0e9))) };
-    let interp = match build1::<T>(xo, crate::layout::realise(arr_d::<T>(&shape, &data), dlay, T::of(-3.5e5)), dd, &Strat1::Linear { extrapolate }) {
+    let unchecked = xo.is_some() && src.chance(1, 10);
+    if unchecked {
+        obs.class("constructor:new_unchecked");
+    }
+    let interp = match if unchecked {
+        build1_unchecked::<T>(xo.unwrap(), crate::layout::realise(arr_d::<T>(&shape, &data), dlay, T::of(-3.5e5)), dd, extrapolate).map(Ok)
+    } else {
+        build1::<T>(xo, crate::layout::realise(arr_d::<T>(&shape, &data), dlay, T::of(-3.5e5)), dd, &Strat1::Linear { extrapolate })
+    } {
         Some(Ok(i)) => i,
         Some(Err(e)) => fail!("build-failed", "valid input rejected: {e}"),
         None => unreachable!(),
